@@ -316,7 +316,7 @@ func sSeqJob(raw json.RawMessage) (interface{}, error) {
 	}
 	res := vrt.Run(vrt.Config{Horizon: 20_000_000}, func() {
 		d = vdisk.New(base)
-		srv := simple.Recover(d)
+		srv := simpleRecover(d)
 		for _, o := range a.Pre {
 			if got, want := sDo(srv, o), spec.apply(o); got != want {
 				viol("seq|reply|"+o.String(), fmt.Sprintf("set-up request %s answered %+v, the specification says %+v", o, clipOut(got), clipOut(want)))
@@ -328,7 +328,7 @@ func sSeqJob(raw json.RawMessage) (interface{}, error) {
 			cur = o.String()
 			if o.K == "RESTART" {
 				vrt.Quiesce()
-				srv = simple.Recover(d)
+				srv = simpleRecover(d)
 				specs = append(specs, spec.Clone().(sSpec))
 				continue
 			}
@@ -371,7 +371,7 @@ func sSeqJob(raw json.RawMessage) (interface{}, error) {
 			var obs map[uint64]string
 			ok2 := true
 			rres := vrt.Run(vrt.Config{}, func() {
-				srv := simple.Recover(vdisk.New(im.Img))
+				srv := simpleRecover(vdisk.New(im.Img))
 				if pol == 1 {
 					vrt.Quiesce()
 				}
@@ -427,7 +427,7 @@ func sConcHarness(raw json.RawMessage, cfg vrt.Config) (vrt.Result, Outcome) {
 	res := vrt.Run(cfg, func() {
 		d := vdisk.New(base)
 		d.Record = false
-		srv := simple.Recover(d)
+		srv := simpleRecover(d)
 		vrt.SetBranching(true)
 		var ids []int
 		for ci, ops := range a.Clients {
@@ -491,7 +491,7 @@ func sCCHarness(raw json.RawMessage, cfg vrt.Config) (vrt.Result, Outcome) {
 	}
 	res := vrt.Run(cfg, func() {
 		d = vdisk.New(base)
-		srv := simple.Recover(d)
+		srv := simpleRecover(d)
 		vrt.Quiesce()
 		vrt.SetBranching(true)
 		var ids []int
@@ -535,7 +535,7 @@ func sCCHarness(raw json.RawMessage, cfg vrt.Config) (vrt.Result, Outcome) {
 	recoverObs := func(img *vdisk.Image, pol int) ([]lin.Op, *vrt.Result) {
 		var obs []lin.Op
 		r := vrt.Run(vrt.Config{}, func() {
-			srv := simple.Recover(vdisk.New(img))
+			srv := simpleRecover(vdisk.New(img))
 			if pol == 1 {
 				vrt.Quiesce()
 			}
